@@ -88,7 +88,7 @@ CHECKS = {
          "TLA+ specs Lifecycle (atom ledger: which stage may create / delete atoms of which origin; kept flips as swaps) and OptClasses (name-set effect of the optimisation classes): TLC exhaustive on OptClasses; every corpus run recorded at the level of add/remove/rename_atom and validated by TLC (LifecycleTrace) incl. end-of-run partition, written-is-matched, topology-exact and input-count clauses",
          "TLC checks NoTempAfterComplete/FinalSetIsTopology/InputHeavyConserved over all try_* sequences of the optimisation classes; each real run's primitive operations are replayed through the ledger spec, which rejects a creation or deletion that is illegal for its stage and origin, and at the end judges that every heavy input atom of a recognised residue is present (or its flipped copy, or reported, or the 5' phosphate), names are unique, no LP/FLIP placeholder remains, matched and unassigned lists partition the model, the PQR lines are exactly the matched atoms in order, fully parameterised residues carry exactly their patched topology's atoms, and as many heavy atoms entered the model as the input has records.",
          "Identity = Python object; report = log record before the deletion; topology oracle = the residue's patched reference object of the current tree (HIS per tautomer; one of the two acid hydrogens); corpus = generated peptides/environments/strands/complexes and repository structures; wrappers are harness code.",
-         "DESIGN.md 6/C03", ["Lifecycle", "LifecycleTrace", "OptClasses", "HbondSched", "MC_HbondSched", "HbondSchedTrace"]),
+         "DESIGN.md 6/C03", ["Lifecycle", "LifecycleTrace", "OptClasses", "HbondSched", "MC_HbondSched", "HbondSchedTrace", "ApplyPatch"]),
  "C04": ("model_checking",
          "TLA+ spec Moves (rank by breadth-first search from CA with the special cases, moved set beyond the pivot): TLC computes rank and moved set for every residue type x position x dihedral of the current topology and judges the real get_moveable_names answer (MovesTrace); every real torsion change and the final geometry of traced clash/hydrogen-bond runs are judged; the stage clause is checked on the same runs against Pipeline.tla (PipelineTrace)",
          "All ~200 (residue type / named variant x chain position x dihedral) cases of the current topology files are put to the real code after set_termini/add_hydrogens/set_reference_distance; TLC's own computation must equal the real rank and moved set and RigidSafe must hold on the real answer (no backbone or terminal-cap atom moves, no bond cut off the axis, over the bond graph of the patched topology object); in ~380 traced runs (random and hard clash environments, hydrogen-bond environments, omitted atoms, repository structures, forbidding options) every set_dihedral_angle/rotate_tetrahedral is judged on distances to the axis, rigidity of the moved set and fixed axis atoms, the end of each run on bond lengths/angles among input heavy atoms, backbone displacement and NoMoveWhenForbidden, and the stage events on HeavyOnlyInMoveStages.",
